@@ -304,6 +304,8 @@ where
     L: Flat + Length,
 {
     unsafe fn validate_unchecked(bytes: &[u8]) -> Result<(), Error> {
+        // Validate exactly the bytes that the mapped reference covers (see `ptr_from_bytes`).
+        let bytes = unsafe { bytes.get_unchecked(..floor_mul(bytes.len(), Self::ALIGN)) };
         let mut iter = DataIter::<'_, T, L, _>::new(bytes);
         loop {
             let payload_pos = iter.pos + Self::OFFSET_SIZE;
